@@ -149,6 +149,49 @@ pub fn texts(deep: bool, mut f: impl FnMut(String, String)) {
     ] {
         f(format!("misc/{k}"), format!("{decls}def g(x: i64): Fun[i64, i64] {{ new {{ ap(u, k) => u }} }}\ndef f(x: i64, zz: Stream[i64], a :cns i64): i64 {{ {body} }}\n"));
     }
+    // identifier shapes: every class of names (variables, covariables and labels, definitions,
+    // destructors, declaration parameters, types, type parameters, constructors) written in every
+    // shape the lexer admits (camel case, underscores inside and at the end, digits, keyword
+    // prefixes), one class at a time and all classes together
+    let shapes: [(&str, fn(&str) -> String); 9] = [
+        ("plain", |b| b.to_string()),
+        ("camel", |b| format!("{b}Bc")),
+        ("snake", |b| format!("{b}_b")),
+        ("digit", |b| format!("{b}1")),
+        ("trailing", |b| format!("{b}_")),
+        ("multi", |b| format!("{b}__1_")),
+        ("mixed", |b| format!("{b}B_9z")),
+        ("keyword", |b| if b.chars().next().unwrap().is_uppercase() { format!("{b}i64") } else { format!("new{b}") }),
+        ("keyword2", |b| if b.chars().next().unwrap().is_uppercase() { format!("{b}_case") } else { format!("cns{b}") }),
+    ];
+    let classes: [(&str, &[&str]); 8] = [
+        ("var", &["x", "y", "o", "u", "w", "h", "t"]),
+        ("covar", &["k", "l"]),
+        ("def", &["f", "g"]),
+        ("dtor", &["d", "e"]),
+        ("declparam", &["p", "q"]),
+        ("type", &["T", "C"]),
+        ("typaram", &["P"]),
+        ("ctor", &["K", "L"]),
+    ];
+    let template = "data {T}[{P}] { {K}, {L}({p}: {P}, {q}: {T}[{P}]) }
+codata {C}[{P}] { {d}: {P}, {e}({p}: {P}, {q} :cns i64): {C}[{P}] }
+        def {f}({x}: i64, {k} :cns i64): i64 { let {y}: {T}[i64] = {L}({x}, {K}); let {o}: {C}[i64] = new { {d} => {x}, {e}({u}, {w}) => {g}({u}) };         label {l} { {y}.case[i64] { {K} => goto {l} ({o}.{d}[i64]), {L}({h}, {t}) => {o}.{e}[i64]({h}, {k}).{d}[i64] } } }
+        def {g}({x}: i64): {C}[i64] { new { {d} => {x}, {e}({u}, {w}) => {g}({u}) } }
+";
+    for (sname, shape) in shapes.iter() {
+        for ci in 0..=classes.len() {
+            let mut text = template.to_string();
+            for (cj, (_, bases)) in classes.iter().enumerate() {
+                for base in bases.iter() {
+                    let name = if ci == classes.len() || ci == cj { shape(base) } else { base.to_string() };
+                    text = text.replace(&format!("{{{base}}}"), &name);
+                }
+            }
+            let cname = if ci == classes.len() { "all" } else { classes[ci].0 };
+            f(format!("names/{cname}/{sname}"), text);
+        }
+    }
     // declaration forms
     for (k, d) in [
         ("data0", "data E { }"),
